@@ -431,6 +431,16 @@ def provenance_rule(repo: Repo, rep: Report, rid: str) -> None:
              and call_name(x.value) == "_calculate_size_and_offsets"]
     okpair = bool(calls) and all(isinstance(c.targets[0], ast.Tuple) and [norm(e) for e in c.targets[0].elts] == ["size", "alignment"] for c in calls)
     cd = {norm(x.targets[0]): norm(x.value) for x in walk_body(fi.node.body) if isinstance(x, ast.Assign) and norm(x.targets[0]).startswith("classdict[")}
+    from .c18 import update_fields_fold
+
+    uf = update_fields_fold(repo)
+    if uf is not None:
+        bad = [b_ for b_ in uf["bad"] if "class dict differs" in b_[1] and any(k_ in b_[1] for k_ in ("'size'", "'alignment'", "'dynamic'"))] + \
+              [b_ for b_ in uf["bad"] if "offset calculation" in b_[1]]
+        ob(not bad, f"{fi.key}:size/alignment/dynamic", f"folded over {uf['cases']} cases: the class dict holds the calculator's size and alignment, dynamic is 'size is None'",
+           f"class size/alignment/dynamic are not the calculator's results: {bad[0][0] if bad else ''}: {bad[0][1] if bad else ''}", fi.loc())
+        rep.floor(rid, "provenance obligations", n, 11)
+        return
     ob(okpair and cd.get("classdict['size']") == "size" and cd.get("classdict['alignment']") == "alignment" and cd.get("classdict['dynamic']") == "size is None",
        f"{fi.key}:size/alignment/dynamic", "class size/alignment/dynamic are the calculator's results",
        f"class size/alignment/dynamic are not the calculator's results: {cd.get(chr(99)+'lassdict[' + chr(39) + 'size' + chr(39) + ']')}", fi.loc())
@@ -573,6 +583,15 @@ def size_source_rule(repo: Repo, rep: Report, rid: str) -> None:
         rep.check(m is not None and m.key == fi.key, rid, f"types/enum.py:EnumMetaType.__len__:{fam}", "EnumMetaType.__len__ is MetaType.__len__",
                   f"len({fam} type) resolves to {m.key if m else None}, not MetaType.__len__", repo.cls("EnumMetaType").module.path + ":1")
     ev = repo.func("expression.py", "Expression.evaluate")
+    from ..exprfold import fold_expression
+
+    ef = fold_expression(repo)
+    if ef is not None:
+        # the expression fold evaluates sizeof(T) alone and inside larger expressions against the model's type sizes
+        bad = [b for b in ef["bad"] if "sizeof" in str(b[0])]
+        rep.check(not bad, rid, f"{ev.key}:sizeof", "folded: sizeof(T) is the size of the resolved type", f"'{bad[0][0] if bad else ''}' evaluates to {bad[0][3] if bad else ''}, "
+                  f"the reference gives {bad[0][4] if bad else ''}", ev.loc())
+        return
     g = CFG(ev.node)
     arms = [x for x in g.nodes if x.kind == "if" and "'sizeof'" in norm(x.ast.test)]
     ok = False
@@ -714,7 +733,9 @@ def run(repo: Repo, rep: Report, tier: str) -> None:
     size_source_rule(repo, rep, "C04.R5")
     from .c18 import align_flag_rule, offsets_before_compile_rule
 
-    align_flag_rule(repo, rep, "C04.R6")
+    from .c13 import token_parser_shape
+
+    token_parser_shape(repo, rep, align_flag_rule, "C04.R6")
     offsets_before_compile_rule(repo, rep, "C04.R7")
     memo_key_rule(repo, rep, "C04.R8")
     from .c02 import flush_rule
